@@ -88,23 +88,26 @@ func (e *Encoder) writeMap(data interface{}) (int, error) {
 	// object data MUST not be unpacked
 	vv := reflect.ValueOf(data)
 
+	// nil and empty maps are written as null, which takes no ref ordinal
+	uv := UnpackPtrValue(vv)
+	// check nil map
+	if uv.Kind() == reflect.Ptr && !uv.Elem().IsValid() {
+		_, err := e.writeBT(_nilTag)
+		return 0, err
+	}
+
+	keys := uv.MapKeys()
+	if len(keys) == 0 {
+		_, err := e.writeBT(_nilTag)
+		return 0, err
+	}
+
 	// check ref
 	if n, ok := e.checkEncodeRefMap(vv); ok {
 		return e.writeRef(n)
 	}
 
-	vv = UnpackPtrValue(vv)
-	// check nil map
-	if vv.Kind() == reflect.Ptr && !vv.Elem().IsValid() {
-		_, err := e.writeBT(_nilTag)
-		return 0, err
-	}
-
-	keys := vv.MapKeys()
-	if len(keys) == 0 {
-		_, err := e.writeBT(_nilTag)
-		return 0, err
-	}
+	vv = uv
 
 	typ := vv.Type()
 
